@@ -141,6 +141,16 @@ func (w *world) close() {
 	node.ClearOutcomeOverrides()
 }
 
+// del removes the tip through the engine and delivers the delete event to the generator, as its event loop would (the loop
+// itself is not running: forging attempts are driven synchronously).
+func (w *world) del(tip *blockchain.Block) {
+	if err := w.n.Exec.VerifDeleteBlock(tip, false); err != nil {
+		w.fail("delete: %v", err)
+	}
+	w.gen.VerifOnDeleteBlock(&consensus.EventBlockDeleteMessage{Block: tip})
+	w.hist = append(w.hist, fmt.Sprintf("delete h=%d", tip.Header.Height))
+}
+
 // extend applies k harness-built blocks of other validators in past slots.
 func (w *world) extend(t *rapid.T, k int, noVote bool) {
 	for i := 0; i < k; i++ {
@@ -185,6 +195,10 @@ type poolTx struct {
 
 func (w *world) fillPool(t *rapid.T) []poolTx {
 	var out []poolTx
+	// transactions of deleted blocks come back through the delete event; the selection oracle works on a pool it knows
+	for _, tx := range w.pool.GetAll() {
+		w.pool.Remove(tx.ID)
+	}
 	nSenders := rapid.IntRange(0, 4).Draw(t, "senders")
 	for s := 0; s < nSenders; s++ {
 		cnt := rapid.IntRange(1, 4).Draw(t, "txsOfSender")
@@ -470,10 +484,7 @@ func runScenario(t *rapid.T, w *world) (forges, restarts, lower int) {
 		}
 		for j := 0; j < d; j++ {
 			tip := w.n.Tip()
-			if err := w.n.Exec.VerifDeleteBlock(tip, false); err != nil {
-				w.fail("delete: %v", err)
-			}
-			w.hist = append(w.hist, fmt.Sprintf("delete h=%d", tip.Header.Height))
+			w.del(tip)
 		}
 		for j := 0; j < 10; j++ {
 			mhp, _, _ := w.n.Heights()
@@ -672,10 +683,7 @@ func runStaleListScenario(t *rapid.T, w *world) (forges int) {
 		next.Idx = append(next.Idx, k.Index)
 		next.Weights = append(next.Weights, weight[k.Index])
 	}
-	if err := w.n.Exec.VerifDeleteBlock(tip, false); err != nil {
-		w.fail("delete: %v", err)
-	}
-	w.hist = append(w.hist, fmt.Sprintf("delete h=%d", tip.Header.Height))
+	w.del(tip)
 	parent := w.n.Tip().Header
 	slot := w.n.SlotOf(tip.Header.Timestamp) + 1
 	if k, err := w.n.GeneratorAt(parent.Height+1, slot); err == nil && bytes.Equal(k.Addr, w.gStar) {
@@ -758,10 +766,7 @@ func runHistory(t *rapid.T) {
 			k := rapid.IntRange(1, int(w.n.Tip().Header.Height-F)).Draw(t, "switchDepth")
 			for j := 0; j < k && w.n.Tip().Header.Height > w.n.Finalized(); j++ {
 				tip := w.n.Tip()
-				if err := w.n.Exec.VerifDeleteBlock(tip, false); err != nil {
-					w.fail("delete: %v", err)
-				}
-				w.hist = append(w.hist, fmt.Sprintf("delete h=%d", tip.Header.Height))
+				w.del(tip)
 			}
 			for j := 0; j < 10; j++ {
 				mhp, _, _ := w.n.Heights()
@@ -786,10 +791,7 @@ func runHistory(t *rapid.T) {
 			}
 			for j := 0; j < k && w.n.Tip().Header.Height > w.n.Finalized() && w.n.Tip().Header.Height > 0; j++ {
 				tip := w.n.Tip()
-				if err := w.n.Exec.VerifDeleteBlock(tip, false); err != nil {
-					w.fail("delete: %v", err)
-				}
-				w.hist = append(w.hist, fmt.Sprintf("delete h=%d", tip.Header.Height))
+				w.del(tip)
 			}
 		case "extend":
 			w.extend(t, rapid.IntRange(1, 6).Draw(t, "extendBy"), false)
